@@ -371,7 +371,16 @@ func (m *Manager[T]) scan(id string) error {
 			return err
 		}
 
-		cs, err = newClientState(m.nc, m.construct, n)
+		// read the node again now that the subscription is in place, what
+		// we have is from before
+		current, err := GetNodes(m.nc, n.Parent, n.ID, "", false)
+		if err == nil && len(current) != 1 {
+			err = fmt.Errorf("node %v is no longer there", n.ID)
+		}
+
+		if err == nil {
+			cs, err = newClientState(m.nc, m.construct, current[0])
+		}
 		close(csReady)
 
 		if err != nil {
